@@ -262,6 +262,23 @@ pub fn run(out: &mut Out, seed: u64, tier: &str) {
         run_one(out, &format!("const-norm 0.5 on {} atoms, default budget", grid.n()), &grid, Inner::ConstNorm { g: 0.5 }, None, &mut stats);
         if side == 7 { run_one(out, &format!("const-norm 0.5 on {} atoms, budget 12", grid.n()), &grid, Inner::ConstNorm { g: 0.5 }, Some(12), &mut stats); }
     }
+    // what the changed source lines mention: systems of that many atoms (default budget), budgets of that many steps, and walks whose
+    // single step or total travel is about that far (a kick or a constant force sized so that alpha * g is half / twice the value)
+    let h = hints();
+    for n in h.atom_counts(9, 1500) {
+        let grid = Mol { name: format!("hinted-grid-{}", n), zs: vec![18; n], xs: lattice_points(n, 7.0) };
+        run_one(out, &format!("const-norm 0.5 on {} atoms (hinted size), default budget", n), &grid, Inner::ConstNorm { g: 0.5 }, None, &mut stats);
+    }
+    for &k in h.ints.iter().filter(|k| **k <= 3000).take(4) {
+        run_one(out, &format!("flat-energy budget {} (hinted)", k), &base, Inner::Flat, Some(k), &mut stats);
+        run_one(out, &format!("const-norm 0.3 budget {} (hinted)", k + 1), &base, Inner::ConstNorm { g: 0.3 }, Some(k + 1), &mut stats);
+    }
+    for mag in h.magnitudes().into_iter().filter(|m| *m >= 1.0).take(6) {
+        for f in [0.5, 2.0] {
+            run_one(out, &format!("kick sized for a step of {:e} A (hinted)", f * mag), &base, Inner::Kick { calls: 0, g: f * mag / 1e-4 }, None, &mut stats);
+            run_one(out, &format!("const-norm sized for a total travel of {:e} A (hinted)", f * mag), &base, Inner::ConstNorm { g: f * mag / (500.0 * 1e-4) }, None, &mut stats);
+        }
+    }
     run_one(out, "budget-0", &base, Inner::Flat, Some(0), &mut stats);
     run_one(out, "budget-1", &base, Inner::Flat, Some(1), &mut stats);
     for _ in 0..(if tier == "thorough" { 40 } else { 8 }) {
